@@ -231,6 +231,32 @@ def check_dict_tail(rep, mod):
             at = P.atoms(cp.args[1][1])
             R.check(('param', pidx, None) in at and ('param', pidx, 0) in at, mod.where(f, cp), '%s: the history copy can only read from %s; for a dictionary longer than IGZIP_HIST_SIZE the pointer must be advanced to its last IGZIP_HIST_SIZE bytes '
                     '(as the sibling functions do)' % (fn, sorted(at, key=str)), key='R-DICT-TAIL|%s|copy' % fn, sample='%s: source is dict or dict + (len - HIST)' % fn)
+        # the advance must be computed from the caller's dictionary length (dict + dict_len - HIST), not from a value that was already clamped
+        lens = [n for n, (ty, nm) in enumerate(f.params) if nm.endswith('dict_len')]
+        if len(lens) != 1:
+            raise AnalysisBroken('%s: no dict_len parameter' % fn)
+        for cp in copies:
+            seen, work, var_idx_deps = set(), [cp.args[1][1]], []
+            while work:
+                x = work.pop()
+                if x in seen:
+                    continue
+                seen.add(x)
+                d = f.defs.get(x)
+                if d is None:
+                    continue
+                if d.op == 'getelementptr':
+                    for ix in d.extra['idx']:
+                        v = ix.split()[-1]
+                        if not re.match(r'^-?\d+$', v):
+                            var_idx_deps.append(P.deps(v))
+                    work.append(d.ops[0])
+                elif d.op == 'phi':
+                    work += [a for a, _ in d.extra['incoming']]
+                elif d.op in ('bitcast', 'select'):
+                    work += [o for o in d.ops if o.startswith('%')]
+            R.check(any(('param', lens[0], 0) in deps for deps in var_idx_deps), mod.where(f, cp), '%s: the amount by which the dictionary pointer is advanced does not depend on the dict_len argument (it is computed after the '
+                    'length was clamped, i.e. it is always 0): the head instead of the tail of a long dictionary is kept' % fn, key='R-DICT-TAIL|%s|advance' % fn)
         src = irrules._strip(f, copies[0].args[1][1])
         for i in f.all_insns():
             if i.op == 'call' and i.callee in mod.funcs and not i.callee.startswith('llvm.'):
